@@ -102,7 +102,7 @@ func (x *Explorer) Exec(plan *Plan) *Result {
 		s.Cut++
 	}
 	x.inter[res.Inter] = struct{}{}
-	x.logx = x.logx*1099511628211 ^ res.LogHash
+	x.logx += Mix(res.LogHash, 0x10c) // order-insensitive: seeds may be explored in any order
 	for _, st := range res.States {
 		x.states[st] = struct{}{}
 	}
@@ -193,7 +193,17 @@ func envInt(name string, def int64) int64 {
 //	VERIF_OUT       summary output path
 //	VERIF_REPLAY    replay file to re-execute instead of exploring
 //	VERIF_REPLAYDIR where to put replay files
+// Warmup, when set by a harness package, is run once per process before the
+// first seeded run. Go's crypto packages run one-time self-tests on first use
+// that draw from the randomness source; without a warm-up the first run of a
+// process would see a different random stream than every later run (and than
+// a replay, which is always a first run).
+var Warmup func(t *testing.T)
+
 func WorkerMain(t *testing.T, props map[string]Property) {
+	if Warmup != nil && os.Getenv("VERIF_NOWARM") == "" {
+		Warmup(t)
+	}
 	id := os.Getenv("VERIF_PROP")
 	prop, ok := props[id]
 	if !ok {
@@ -244,7 +254,11 @@ func WorkerMain(t *testing.T, props map[string]Property) {
 		if x.Expired() || (maxSeeds > 0 && i >= maxSeeds) {
 			break
 		}
-		seed := Mix(base, uint64(worker)+uint64(workers)*uint64(i), 0x5eed)
+		k := i
+		if os.Getenv("VERIF_REVERSE") != "" && maxSeeds > 0 {
+			k = maxSeeds - 1 - i // same seeds, opposite order (determinism self-test)
+		}
+		seed := Mix(base, uint64(worker)+uint64(workers)*uint64(k), 0x5eed)
 		if os.Getenv("VERIF_RAWSEED") != "" {
 			seed = base + uint64(worker) + uint64(workers)*uint64(i)
 		}
